@@ -92,18 +92,50 @@ def dump_snippet(info, tag):
     return '\n'.join(o)
 
 
-def make_tu(headers, infos):
+def probe_snippet(fmt, tag):
+    """direct-call behaviour probe for the format declared by a header: for every accessor, in one function:
+    get; set; get; replace the header bytes; get.  Printed values must not depend on what else was included
+    (a declaration-level change such as a const/pure attribute or another prototype shows here at -O2)."""
+    T = fmt['type']
+    n = fmt['bytes']
+    o = ['static void probe_%s(void) {' % tag,
+         '  unsigned char buf[80], alt[80]; unsigned long long a, b, c; %s* p = (%s*)buf; int i;' % (T, T),
+         '  for (i = 0; i < 80; i++) { buf[i] = (unsigned char)(i * 37 + 11); alt[i] = (unsigned char)(i * 101 + 7); }']
+    api = fmt['api']
+    k = 0
+    for x in fmt['fields']:
+        k += 1
+        val = '0x%xULL' % ((0x5A5A5A5A5A5A5A5A ^ (k * 0x0101010101010101)) & 0xFFFFFFFFFFFFFFFF)
+        cast = '(%s)' % fmt.get('enumtype') if fmt.get('enumtype') else ''
+        o.append('  a = %s(p, %s); %s(p, %s, %s); b = %s(p, %s); memcpy(buf, alt, %d); c = %s(p, %s);' % (
+            api['gget'], x['enum'], api['gset'], x['enum'], val, api['gget'], x['enum'], n, api['gget'], x['enum']))
+        o.append('  printf("%s|probe:%s:generic|%%llu,%%llu,%%llu\\n", a, b, c);' % (fmt['header'], x['name']))
+        if x['dget']:
+            o.append('  a = (unsigned long long)%s(p); b = (unsigned long long)%s(p); memcpy(buf, alt, %d); c = (unsigned long long)%s(p);' % (
+                x['dget'], x['dget'], n, x['dget']))
+            o.append('  printf("%s|probe:%s:dedicated|%%llu,%%llu,%%llu\\n", a, b, c);' % (fmt['header'], x['name']))
+    o.append('}')
+    return '\n'.join(o)
+
+
+def make_tu(headers, infos, formats=None, includes_only=False, lang='c'):
     o = ['/* generated by tools/hdrgen.py */']
     for h in headers:
         o.append('#include "%s"' % h)
-    o.append('#include <stdio.h>\n#include <stddef.h>')
+    if includes_only:
+        o.append('int vp_second_tu_%s;' % hashlib.sha1('+'.join(headers).encode()).hexdigest()[:8])
+        return '\n'.join(o) + '\n'
+    o.append('#include <stdio.h>\n#include <stddef.h>\n#include <string.h>')
     o.append('static void P(const char* h, const char* n, long long v) { printf("%s|%s|%lld\\n", h, n, v); }')
     tags = []
     for i, h in enumerate(headers):
         tag = 'h%d' % i
-        tags.append(tag)
+        tags.append('dump_' + tag)
         o.append(dump_snippet(infos[h], tag))
-    o.append('int main(void) { %s return 0; }' % ' '.join('dump_%s();' % t for t in tags))
+        if formats and h in formats and lang == 'c':
+            o.append(probe_snippet(formats[h], tag))
+            tags.append('probe_' + tag)
+    o.append('int main(void) { %s return 0; }' % ' '.join('%s();' % t for t in tags))
     return '\n'.join(o) + '\n'
 
 
@@ -123,25 +155,51 @@ class Runner:
         self.repo, self.work, self.libobjs = repo, workdir, libobjs
         self.inc = os.path.join(repo, 'include')
 
-    def build_run(self, headers, infos, lang):
-        """returns ('ok', {(h,name): value}) or ('compile-error', diag) / ('link-error', ..) / ('run-error', ..)"""
+    def build_run(self, headers, infos, lang, formats=None):
+        """returns ('ok', {(h,name): value}, dropped) or ('compile-error', diag, raw) / ('link-error', ..) / ('run-error', ..).
+        Step 1 compiles a translation unit that only includes the headers: a failure there is the headers' fault.  Step 2
+        compiles the dump; names whose dump line does not compile (not an integer constant expression here) are dropped and
+        returned in `dropped` (the caller compares that with the header alone).  Step 3 links the dump with a second
+        translation unit that includes the same headers (a definition leaking from a header breaks the link)."""
         tag = hashlib.sha1(('+'.join(headers) + lang).encode()).hexdigest()[:16]
-        src = os.path.join(self.work, 'tu_%s.%s' % (tag, 'c' if lang == 'c' else 'cpp'))
+        ext = 'c' if lang == 'c' else 'cpp'
+        src = os.path.join(self.work, 'tu_%s.%s' % (tag, ext))
+        src2 = os.path.join(self.work, 'tu2_%s.%s' % (tag, ext))
         exe = os.path.join(self.work, 'tu_%s' % tag)
-        open(src, 'w').write(make_tu(headers, infos))
-        if lang == 'c':
-            cmd = ['gcc', '-std=c99', '-w', '-I' + self.inc, '-c', src, '-o', exe + '.o']
-        else:
-            cmd = ['g++', '-std=gnu++17', '-w', '-fpermissive', '-I' + self.inc, '-c', src, '-o', exe + '.o']
-            cmd.remove('-fpermissive')
-        rc, so, se = sh(cmd)
+        cc = ['gcc', '-std=c99'] if lang == 'c' else ['g++', '-std=gnu++17']
+        base = cc + ['-w', '-O2', '-I' + self.inc]
+        open(src2, 'w').write(make_tu(headers, infos, includes_only=True))
+        rc, so, se = sh(base + ['-c', src2, '-o', exe + '.2.o'])
         if rc != 0:
             return 'compile-error', norm_diag(se), se[:1500]
-        rc, so, se = sh(['g++' if lang != 'c' else 'gcc', exe + '.o'] + self.libobjs + ['-o', exe])
+        cur = {h: infos[h] for h in headers}
+        dropped = set()
+        for attempt in range(8):
+            text = make_tu(headers, cur, formats, lang=lang)
+            open(src, 'w').write(text)
+            rc, so, se = sh(base + ['-c', src, '-o', exe + '.o'])
+            if rc == 0:
+                break
+            lines = text.split('\n')
+            bad = set()
+            for m in re.finditer(r':(\d+):\d+: error', se):
+                ln = int(m.group(1)) - 1
+                mm = re.search(r'P\("([^"]*)", "(\w+)"', lines[ln]) if 0 <= ln < len(lines) else None
+                if mm:
+                    bad.add((mm.group(1), mm.group(2)))
+            if not bad:
+                return 'compile-error', 'dump code does not compile: ' + norm_diag(se), se[:1500]
+            dropped |= bad
+            cur = {h: dict(i, macros=[x for x in i['macros'] if (h, x[0]) not in dropped], enums=[x for x in i['enums'] if (h, x) not in dropped])
+                   for h, i in cur.items()}
+        else:
+            return 'compile-error', 'dump code does not compile', se[:1500]
+        rc, so, se = sh((['gcc'] if lang == 'c' else ['g++']) + [exe + '.o', exe + '.2.o'] + self.libobjs + ['-o', exe])
         if rc != 0:
-            return 'link-error', norm_diag(se) if 'error' in se else se[:100], se[:1500]
+            d = re.search(r'(multiple definition of [^;\n]*|undefined reference to [^\n]*)', se)
+            return 'link-error', re.sub(r"[`'‘’]", "'", d.group(1))[:100] if d else 'link failed', se[:1500]
         rc, so, se = sh([exe])
-        for f in (src, exe, exe + '.o'):
+        for f in (src, src2, exe, exe + '.o', exe + '.2.o'):
             try:
                 os.unlink(f)
             except OSError:
@@ -152,7 +210,41 @@ class Runner:
         for line in so.splitlines():
             h, n, v = line.split('|', 2)
             vals[(h, n)] = v
+        for h, n in dropped:
+            vals[(h, n)] = 'not-an-integer-constant-expression'
         return 'ok', vals, ''
+
+
+def coupled_triples(repo, headers, cap=400):
+    """ordered triples of headers that define/undefine/test the same macro name: conflicts that need three headers in a
+    particular order come from exactly such couplings (and from #pragma state), so they are enumerated completely."""
+    inc = os.path.join(repo, 'include')
+    names = {}
+    for h in headers:
+        txt = open(os.path.join(inc, h), errors='replace').read()
+        txt = re.sub(r'/\*.*?\*/', '', txt, flags=re.S)
+        for m in re.finditer(r'^[ \t]*#[ \t]*(define|undef|ifdef|ifndef|if|elif)\b(.*)$', txt, flags=re.M):
+            for nm in re.findall(r'\b[A-Za-z_]\w*\b', m.group(2).split('//')[0])[: (1 if m.group(1) in ('define', 'undef', 'ifdef', 'ifndef') else 20)]:
+                if nm in ('defined', '__cplusplus'):
+                    continue
+                names.setdefault(nm, set()).add(h)
+        if re.search(r'#[ \t]*pragma[ \t]+(pack|push_macro|pop_macro)', txt):
+            names.setdefault('#pragma-state', set()).add(h)
+    groups = [sorted(v) for k, v in sorted(names.items()) if len(v) >= 2]
+    triples, seen = [], set()
+    for g in groups:
+        if len(g) > 6:
+            continue
+        pool = list(g)
+        if len(pool) == 2:        # add every third header as bystander? no: pairs are enumerated elsewhere
+            continue
+        for a in pool:
+            for b in pool:
+                for c in pool:
+                    if len({a, b, c}) == 3 and (a, b, c) not in seen:
+                        seen.add((a, b, c))
+                        triples.append([a, b, c])
+    return triples[:cap], {k: sorted(v) for k, v in names.items() if len(v) >= 2}
 
 
 def compare(alone, vals, headers):
